@@ -186,6 +186,10 @@ def _observe(emmet, section, typ, syn, c, kind, val, user, glob, conc):
             if c == 'stylesheet.between' and typ == 'stylesheet':
                 out = emmet.expand('p10', user, glob)
                 return True if ('padding' + val + '10') in out else 'expand(p10) = %r does not use between %r' % (out, val)
+            if c == 'output.selfClosingStyle' and typ == 'markup' and syn in ('html', 'xml', 'xsl', 'jsx', 'vue', 'svelte', 'xhtml', 'foo', 'bar'):
+                out = emmet.expand('zzx/', user, glob)
+                tok = {'xhtml': ' /', 'xml': '/'}.get(val if kind in ('marker', 'builtin') else 'html', '')
+                return True if out == '<zzx%s>' % tok else 'expand(zzx/) = %r does not use the self-closing token %r of style %r' % (out, tok, val)
             if c == 'output.indent' and typ == 'markup' and syn in ('html', 'xml', 'pug', 'haml', 'slim'):
                 out = emmet.expand('x>y', user, glob)
                 return True if ('\n' + val) in out else 'expand(x>y) = %r does not use indent %r' % (out, val)
@@ -194,7 +198,13 @@ def _observe(emmet, section, typ, syn, c, kind, val, user, glob, conc):
             if kind == 'absent' or typ != 'markup' or syn in ('pug', 'haml', 'slim') or any(ch.isspace() for ch in val):
                 return None
             out = emmet.expand('x[l="${%s}"]' % c, user, glob)
-            return True if ('l="%s"' % val) in out else 'expand(x[l="${%s}"]) = %r does not show %r' % (c, out, val)
+            if ('l="%s"' % val) not in out:
+                return 'expand(x[l="${%s}"]) = %r does not show %r' % (c, out, val)
+            # the same variable read inside the definition of a snippet alias (the alias is parsed by a second call of the parser)
+            u2 = copy.deepcopy(user)
+            u2.setdefault('snippets', {})['vvq'] = 'y[l="${%s}"]' % c
+            out = emmet.expand('vvq', u2, glob)
+            return True if ('l="%s"' % val) in out else 'expand(vvq) with vvq = y[l="${%s}"] gives %r, which does not show %r' % (c, out, val)
     except Exception as ex:
         return 'expand raised %s: %s' % (type(ex).__name__, ex)
     return None
